@@ -10,10 +10,12 @@ def main():
     tier = 'quick'
     if '--tier' in sys.argv: tier = sys.argv[sys.argv.index('--tier') + 1]; args = [a for a in args if a != tier]
     inrepo = '--in-repo' in sys.argv
-    names = args or sorted(os.listdir(os.path.join(HERE, 'seeded')))
+    benign = '--benign' in sys.argv
+    base = 'benign' if benign else 'seeded'
+    names = args or sorted(n for n in os.listdir(os.path.join(HERE, base)) if os.path.isdir(os.path.join(HERE, base, n)))
     rc_all = 0
     for n in names:
-        d = os.path.join(HERE, 'seeded', n)
+        d = os.path.join(HERE, base, n)
         meta = json.load(open(os.path.join(d, 'meta.json')))
         pid = meta['property']
         if not os.path.exists(os.path.join(HERE, 'contracts', pid + '.spec')):
@@ -35,9 +37,9 @@ def main():
         viol = [l for l in p.stdout.splitlines() if l.startswith('VIOLATION') or l.startswith('  obligation') or l.startswith('UNDECIDED')]
         res = {'exit': p.returncode, 'tier': tier, 'lines': viol[:12]}
         json.dump(res, open(os.path.join(d, 'check_result.json'), 'w'), indent=1)
-        status = {1: 'CAUGHT', 0: 'MISSED', 2: 'UNDECIDED'}.get(p.returncode, 'rc=%s' % p.returncode)
+        status = ({0: 'QUIET (as it must be)', 1: 'FALSE ALARM', 2: 'UNDECIDED'} if benign else {1: 'CAUGHT', 0: 'MISSED', 2: 'UNDECIDED'}).get(p.returncode, 'rc=%s' % p.returncode)
         print('%-40s %s: %s %s' % (n, pid, status, (viol[1].strip()[:150] if len(viol) > 1 else (viol[0][:150] if viol else ''))))
-        if p.returncode != 1: rc_all = 1
+        if p.returncode != (0 if benign else 1): rc_all = 1
     return rc_all
 if __name__ == '__main__':
     sys.exit(main())
